@@ -1,10 +1,18 @@
-"""C02 — pairing values equal the SM9 R-ate pairing byte for byte (everything the standard fixes that is a literal or a layout)."""
+"""C02 — pairing values equal the SM9 R-ate pairing byte for byte (everything the standard fixes that is a literal, a layout or a loop shape)."""
 from core import report
 from core.sm9 import Repo
-from . import shared, consts
+from . import shared, consts, layout, expo, miller
 
 
 def run(ctx):
     repo = Repo(ctx.dev)
-    rules = [consts.rule_const("C02", repo), consts.rule_generators("C02", repo), consts.rule_frobenius("C02", repo), consts.rule_frob_dispatch("C02", repo)]
-    return report.emit("C02", ctx.tier, ctx.seed, rules, ctx.started, "constants", shared.ASSUMPTIONS, ["value"])
+    r_lay, _ = layout.rule_layout("C02", repo, layout.std_tables(repo.P))
+    rules = [consts.rule_const("C02", repo), consts.rule_generators("C02", repo), consts.rule_frobenius("C02", repo), consts.rule_frob_dispatch("C02", repo),
+             r_lay, layout.rule_wrappers("C02", repo, [("crate::Gt::to_slice", "crate::fields::fq12::Fq12::to_slice")]), expo.rule_exp("C02", repo)] + miller.rules("C02", repo)
+    return report.emit(
+        "C02", ctx.tier, ctx.seed, rules, ctx.started,
+        "Every literal the standard fixes satisfies its defining relation (q, r, t, 6t+2 and its signed-digit expansion, Montgomery constants, Frobenius constants, chain exponents, "
+        "generators = the standard's P1/P2 on curve/twist with order r); Gt serialisation order c2‖c1‖c0, each c1‖c0, imaginary‖real; Frobenius maps are the right scalar-linear maps; "
+        "both Miller loops follow the R-ate recurrence up to 6t+2 with the two Frobenius line corrections; both final exponentiations are exactly (q¹²−1)/r.",
+        shared.ASSUMPTIONS + ["contracts of the line functions and Fq12 primitives"],
+        ["the value itself: line-function formulas, tower products, carry chains (numerical)"])
